@@ -261,6 +261,9 @@ func (env *specEnv) ident(name string) Value {
 	if env.fr != nil {
 		for i, fv := range env.fr.fn.FreeVars {
 			if fv.Name() == name {
+				if v, ok := x.constFV[fv]; ok {
+					return v
+				}
 				p := env.fr.bindings[i]
 				return x.load(env.fr, env.st, p, deref(p.T), token.NoPos)
 			}
